@@ -374,7 +374,40 @@ def translate(repo):
     # tiling.rs
     need(re.search(r"const\s+TRIANGLE_MODE\s*:\s*bool\s*=\s*false\s*;", til), "TRIANGLE_MODE = false")
 
+    # ---------------- state inventory (every file under src/)
+    inv = state_inventory(repo)
+    out.append("-- state inventory: every place where the crate can keep something between calls - `static` items (incl. those inside")
+    out.append("-- `thread_local!` / `lazy_static!` and inside function bodies) and the field list of every struct - as `file kind name: type`.")
+    out.append("-- The model is a pure function of each call's arguments plus the ONE memo it models (the projection's triangle caches);")
+    out.append("-- a new item here is state the model does not have.  Entries are UTF-8 code lists (string literals do not reduce in the kernel).")
+    for e in inv:
+        out.append("--   " + e)
+    out.append("def STATE_INVENTORY : List (List Nat) := [\n  " + ",\n  ".join("[" + ", ".join(str(b) for b in e.encode()) + "]" for e in inv) + "]")
+
     return out, hashes
+
+
+def state_inventory(repo):
+    """sorted list of `file kind name: type` for every static item and `file struct Name { fields }` for every struct of src/"""
+    inv = []
+    root = os.path.join(repo, "src")
+    for d, _, fs in sorted(os.walk(root)):
+        for f in sorted(fs):
+            if not f.endswith(".rs"):
+                continue
+            rel = os.path.relpath(os.path.join(d, f), repo)
+            txt = strip_comments(open(os.path.join(d, f), encoding="utf-8").read())
+            norm = lambda t: re.sub(r"\s+", " ", t).strip()
+            for m in re.finditer(r"\bstatic\s+(ref\s+|mut\s+)?([A-Za-z_][A-Za-z0-9_]*)\s*:\s*([^=;]+?)\s*(=|;)", txt):
+                inv.append(f"{rel} static {norm((m.group(1) or '') + m.group(2))}: {norm(m.group(3))}")
+            for m in re.finditer(r"\b(thread_local|lazy_static)\s*!", txt):
+                inv.append(f"{rel} {m.group(1)}! block")
+            for m in re.finditer(r"\bstruct\s+([A-Za-z_][A-Za-z0-9_]*)\s*(<[^>{]*>)?\s*(\{([^{}]*(\{[^{}]*\}[^{}]*)*)\}|\(([^;]*)\)\s*;|;)", txt):
+                body = m.group(4) if m.group(4) is not None else (m.group(6) or "")
+                fields = [norm(x) for x in re.split(r",(?![^<>()]*[>)])", body) if norm(x)]
+                fields = [re.sub(r"^(pub(\([a-z]+\))?\s+)", "", x) for x in fields]
+                inv.append(f"{rel} struct {m.group(1)} {{ " + "; ".join(fields) + " }")
+    return sorted(inv)
 
 
 def main():
